@@ -1207,12 +1207,21 @@ def check_C11(run):
     last_archive = None
     for i, st in enumerate(run.steps):
         inv = st.inv
+        if st.op["op"] == "foreign" and st.foreign and isinstance(st.foreign["rows"], list):
+            archives[st.op["out"]] = {"sel": sorted(map(tuple, st.foreign["rows"])), "tree": st.foreign["tree"],
+                                      "step": i, "mode": "other-checkout"}
+            continue
         if inv is None or st.before is None or st.after is None or inv.killed:
             continue
         k = st.op["op"]
         rows_b = st.before["rows"] if isinstance(st.before["rows"], list) else []
         rows_a = st.after["rows"] if isinstance(st.after["rows"], list) else []
         if k == "archive":
+            ids = [r[1] for r in rows_b]
+            if len(ids) != len(set(ids)):
+                reach["two_tasks_share_a_version_id"] = reach.get("two_tasks_share_a_version_id", 0) + 1
+            if "version_index_archive.sqlite" in st.before["tree"]:
+                reach["stale_temporary_archive_index_present"] = reach.get("stale_temporary_archive_index_present", 0) + 1
             target = st.op.get("target")
             latest = bool(st.op.get("flags", {}).get("latest"))
             sel = archive_selection(tasks, rows_b, target, latest)
@@ -1252,8 +1261,10 @@ def check_C11(run):
                                    {"in_archive": st.archive_info[:6], "expected": sel[:6]}, i))
                 continue
             bset = {tuple(r) for r in rows_b}
-            if bset & set(sel):
+            if {(r[0], r[1]) for r in rows_b} & {(r[0], r[1]) for r in sel}:
                 continue  # the project does not lack those versions: C12's business
+            if any(M.out_dir_rel(r[0], r[1]) in st.before["tree"] for r in sel):
+                continue  # an unrecorded left-over directory is in the way: C12's business as well
             if inv.code != 0:
                 V.append(Violation("C11", "restore-failed-into-project-that-lacks-the-versions",
                                    {"err": inv.err.decode("utf-8", "replace")[-400:],
